@@ -402,6 +402,9 @@ class RawListener:
         return self.conns[-1] if self.conns else None
 
 
+STYLES = {}      # header styles used by the Wire objects of this worker (reported by the checks that want to)
+
+
 # ---- message helpers for harness endpoints (reference encoders where possible, real classes otherwise)
 class Wire:
     """builds frames with the real message classes and parses the node's output with the reference parser"""
@@ -411,9 +414,31 @@ class Wire:
         self.ms = ms
         self.clock = clock
         self.next_id = 1
+        # what an honest peer is free to choose in a message header: its message ids (the repository's own nodes count from
+        # 1 PER CONNECTION, so two peers use the same ids all the time), the context value, its own clock's timestamp.
+        # One style per Wire object, drawn from the worker's seeded global generator (VERIF_WIRE_STYLE forces one)
+        import os as _os
+        import random as _random
+        self.style = _os.environ.get("VERIF_WIRE_STYLE") or _random.choice(
+            ["sequential", "sequential", "always-1", "cycle-3", "random", "sequential+odd-context", "random+odd-clock"])
+        self._r = _random.Random(_random.getrandbits(32))
+        STYLES[self.style] = STYLES.get(self.style, 0) + 1
 
     def frame(self, message, in_response_to=0, context=7):
-        h = self.ms.MessageHeader(self.clock() & 0xFFFFFFFF, self.next_id, in_response_to, context)
+        st, r = self.style, self._r
+        mid = self.next_id
+        if st.startswith("always-1"):
+            mid = 1
+        elif st.startswith("cycle-3"):
+            mid = 1 + self.next_id % 3
+        elif st.startswith("random"):
+            mid = r.randrange(1, 1 << 32)
+        ts = self.clock() & 0xFFFFFFFF
+        if "odd-context" in st and context == 7:
+            context = r.choice([0, 1, (1 << 64) - 1, r.getrandbits(64)])
+        if "odd-clock" in st:
+            ts = r.choice([0, 1, (1 << 32) - 1, (ts + 7200) & 0xFFFFFFFF, max(0, ts - 86400), (1 << 31) - 1, 1 << 31])
+        h = self.ms.MessageHeader(ts, mid, in_response_to, context)
         self.next_id += 1
         return ref.frame(h.serialize() + message.serialize())
 
